@@ -25,6 +25,8 @@ pub struct Bundle {
     pub public_values: Vec<(String, Integer)>,
     /// Boudot range proofs inside the proof: (JSON path prefix, public a, public b, secret kind, secret)
     pub ranges: Vec<(String, Integer, Integer, String, Integer)>,
+    /// base g of each range proof (same order as `ranges`)
+    pub range_bases: Vec<Integer>,
 }
 
 const T_: u32 = 128;
@@ -97,14 +99,17 @@ pub fn issuance_bundle_ext<C: Cs>(
     }
     let mut derived = vec![];
     let mut ranges = vec![];
+    let mut range_bases = vec![];
     let max_x = Integer::from(2).pow(C::lm) - 1u32;
     for (k, &i) in u.iter().enumerate() {
+        range_bases.push(bases.0[i].clone());
         derived.extend(boudot_witnesses("range_proofs_mi", &msgs[i].value, &Integer::from(0), &max_x));
         ranges.push((format!("/CL03/range_proofs_mi/{k}"), Integer::from(0), max_x.clone(), "hidden-attribute".to_string(), msgs[i].value.clone()));
     }
     let max_r = Integer::from(2).pow(C::ln) - 1u32;
     derived.extend(boudot_witnesses("range_proof_r", &rr, &Integer::from(0), &max_r));
     ranges.push(("/CL03/range_proof_r".into(), Integer::from(0), max_r, "commitment-randomness".into(), rr.clone()));
+    range_bases.push(bases.0[0].clone());
     Some(Bundle {
         kind: "zkpok",
         label,
@@ -116,6 +121,7 @@ pub fn issuance_bundle_ext<C: Cs>(
         derived,
         public_values: vec![("C".into(), commitment.value().clone())],
         ranges,
+        range_bases,
     })
 }
 
@@ -139,8 +145,10 @@ pub fn spok_bundle<C: Cs>(ctx: &Ctx, st: &Setup<C>, r: &mut impl rand::RngCore, 
     let (min_e, max_e) = (Integer::from(2).pow(C::le - 1) + 1u32, Integer::from(2).pow(C::le) - 1u32);
     let mut derived = boudot_witnesses("range_proof_e", &e, &min_e, &max_e);
     let mut ranges = vec![("/CL03/range_proof_e".to_string(), min_e, max_e, "signature-exponent-e".to_string(), e.clone())];
+    let mut range_bases = vec![cpk.g_bases[0].clone()];
     let max_x = Integer::from(2).pow(C::lm) - 1u32;
     for (k, &i) in u.iter().enumerate() {
+        range_bases.push(cpk.g_bases[i].clone());
         derived.extend(boudot_witnesses("range_proofs_commited_mi", &msgs[i].value, &Integer::from(0), &max_x));
         ranges.push((format!("/CL03/range_proofs_commited_mi/{k}"), Integer::from(0), max_x.clone(), "hidden-attribute".to_string(), msgs[i].value.clone()));
     }
@@ -157,6 +165,7 @@ pub fn spok_bundle<C: Cs>(ctx: &Ctx, st: &Setup<C>, r: &mut impl rand::RngCore, 
         derived,
         public_values: vec![],
         ranges,
+        range_bases,
     })
 }
 
